@@ -175,7 +175,7 @@ def java(args, cwd, env=None, timeout=3600, xmx="4g", deque=False):
     opts = ["-XX:+UseParallelGC", "-Xmx" + xmx, "-Xss64m"]
     if deque:
         opts.append("-Dtlc2.tool.queue.IStateQueue=StateDeque")
-    cmd = ["java"] + opts + ["-cp", JAR, "tlc2.TLC"] + args
+    cmd = ["java"] + opts + ["-cp", JAR, "tlc2.TLC", "-noGenerateSpecTE"] + args
     try:
         p = subprocess.run(cmd, cwd=cwd, env=e, capture_output=True, text=True, timeout=timeout)
     except subprocess.TimeoutExpired:
